@@ -191,7 +191,7 @@ class ContractResult:
         }
 
 
-def run_contract(name, fn, src_root=None, max_paths=20000, time_limit_s=900, timeout_ms=10000, keep_models=True, model_hook=None):
+def run_contract(name, fn, src_root=None, max_paths=200000, time_limit_s=900, timeout_ms=10000, keep_models=True, model_hook=None, shard=None):
     """Explore all paths of contract `fn(h)`; discharge every obligation. Never raises."""
     res = ContractResult(name)
     t0 = time.time()
@@ -205,7 +205,7 @@ def run_contract(name, fn, src_root=None, max_paths=20000, time_limit_s=900, tim
         return h
 
     try:
-        runs, stats = explore(one, max_paths=max_paths, time_limit_s=time_limit_s)
+        runs, stats = explore(one, max_paths=max_paths, time_limit_s=time_limit_s, shard=shard)
     except Unsupported as e:
         res.error = "unsupported: %s" % e
         res.wall_s = time.time() - t0
